@@ -14,6 +14,7 @@ import (
 	"encoding/json"
 	"fmt"
 	"reflect"
+	"runtime/debug"
 	"sort"
 	"strings"
 
@@ -1489,7 +1490,18 @@ func Run(r *lib.Report) {
 	r.TrustedBase = []string{"controller-runtime fake client (read-only use)", "github.com/evanphx/json-patch (the library the API server applies webhook patches with)"}
 	cs := chunks(th)
 	results := make([]*chunkResult, len(cs))
-	lib.ParallelFor(len(cs), func(i int) { results[i] = runChunk(r, cs[i], th) })
+	// largest chunks first (better balance over the cores); results are reported in chunk order below
+	sizes, order := make([]int, len(cs)), make([]int, len(cs))
+	for i, c := range cs {
+		order[i] = i
+		shapes(c.k, c.group, th, func(Shape) { sizes[i]++ })
+		if c.k.Class == "Deployment" {
+			sizes[i] *= 2 // typed canonicalisation + ReplicaSet listing make these cases about twice as expensive
+		}
+	}
+	sort.SliceStable(order, func(a, b int) bool { return sizes[order[a]] > sizes[order[b]] })
+	defer debug.SetGCPercent(debug.SetGCPercent(400)) // allocation-heavy JSON work; the live heap stays small
+	lib.ParallelFor(len(cs), func(i int) { results[order[i]] = runChunk(r, cs[order[i]], th) })
 	// deterministic reporting: chunk order, then enumeration order inside the chunk
 	samples := 0
 	for _, cr := range results {
